@@ -25,6 +25,11 @@ RULE = ("adversarial stream, every call under recover and a deadline: (a) mutate
         "recursive declared ARRAY types (type Quad [4]*Quad, type Trie [2][]Trie, mutual, and holders of one): a fatal stack overflow of the "
         "harness process is isolated per operation and reported as outcome crash. Violation = panic, crash or deadline on the "
         "real package; where the model covers the call its outcome is compared too. Non-trivial: every op; distinct = operation text")
+RULE += (". Widened (~5%): BYTE SEQUENCES — JSON arrays of integers 0..255 held as Go arrays [N]uint8 BY VALUE (top level, interface "
+         "element, map value, element of an outer Go array: not addressable), as []uint8, *[N]uint8, elements of [][N]uint8, or []any — "
+         "in pairs of equal length (equal, or differing in one byte) and of different length: Equal(x, y) both ways; arrays / objects of "
+         "them with planted duplicates under uniqueItems; and as the values LISTED by enum / const of a schema built in Go (resolve-desc "
+         "argument govals) against instances in every such representation")
 ASSUMPTIONS = ["schema recursion passes through an instance-descending keyword (otherwise the Go stack overflows: outside the proviso)",
                "encoding/json's byte scanner is the standard library's (not modelled)"]
 
@@ -95,10 +100,65 @@ def graph(rng, fields):
     return {"nodes": nodes, "root": root}
 
 
+def bytes_case(rng):
+    """Byte sequences in every Go spelling through Equal, uniqueItems and Go-built enum / const."""
+    k = rng.random()
+    if k < 0.35:
+        j1, j2 = gv.gen_bytes_pair(rng)
+        x, y = gv.represent_bytes(rng, j1), gv.represent_bytes(rng, j2)
+        if rng.random() < 0.5:
+            x, y = y, x
+        return {"op": "equal", "args": {"x": x, "y": y}, "meta": {"equal": True, "bytes": True}}
+    if k < 0.65:
+        n = rng.choice([0, 1, 2, 2, 3, 4])
+        items, seen = [], set()
+        for _ in range(rng.randint(1, 5)):
+            b = gv.gen_bytes_json(rng, n if rng.random() < 0.85 else None)
+            if wire.canon(b) not in seen:
+                seen.add(wire.canon(b))
+                items.append(b)
+        if rng.random() < 0.6:
+            i = rng.randrange(len(items))
+            items.insert(rng.randrange(len(items) + 1), items[i])
+        doc, j = Obj([("uniqueItems", True)]), items
+        c = rng.random()
+        if c < 0.2:
+            doc, j = Obj([("properties", Obj([("a", doc)]))]), Obj([("a", items)])
+        elif c < 0.35:
+            doc, j = Obj([("items", doc)]), [items]
+        elif c < 0.45:
+            doc = Obj([("not", doc)])
+        return {"op": "validate", "args": {"schema": doc, "ginsts": [gv.represent_bytes(rng, j) for _ in range(3)]},
+                "meta": {"nonjson": True, "bytes": True}}
+    j1, j2 = gv.gen_bytes_pair(rng)
+    others = [gv.gen_bytes_json(rng) for _ in range(rng.randint(0, 2))]
+    kw = rng.choice(["Enum", "Enum", "Const"])
+    if kw == "Const":
+        vals, node = [j1], {"Const": {"v": j1}}
+    else:
+        vals = others + [j1]
+        rng.shuffle(vals)
+        node = {"Enum": vals}
+    govals = [[1, kw, i, gv.represent_bytes(rng, v)] for i, v in enumerate(vals) if rng.random() < 0.8]
+    where = rng.choice(["allOf", "prop", "items"])
+    if where == "allOf":
+        nodes, insts = [{"AllOf": [1]}, node], [j2, j1]
+    elif where == "prop":
+        nodes, insts = [{"Properties": [["p", 1]]}, node], [Obj([("p", j2)]), Obj([("p", j1)])]
+    else:
+        nodes, insts = [{"Items": 1}, node], [[j2, j1], [j1]]
+    return {"op": "resolve-desc", "args": {"desc": {"nodes": nodes, "root": 0, "govals": govals}, "loader": "", "base": "",
+                                           "ginsts": [gv.represent_bytes(rng, x) for x in insts]},
+            "meta": {"graph": True, "bytes": True}}
+
+
 def gen(rng, tier, n):
     fields = gsv.fetch_fields(core)
     ops = []
     while len(ops) < n:
+        if rng.random() < 0.05:
+            ops.append(bytes_case(rng))
+            continue
         r = rng.random()
         if r < 0.2:
             c = gs.Ctx(rng, rng.choice(["2020", "7"]), depth=2, refs=False)
